@@ -189,9 +189,9 @@ def process(ctx: Ctx, cases: list[dict]) -> None:
                 ctx.violation("block comments of a level are not returned with exact text", c, {"path": list(path), "got": obc}, bc); break
         for it_path, (lc, bc) in exp.items():
             for t in lc + bc:
-                tt = "\n".join(l.rstrip() for l in t.replace("\r\n", "\n").replace("\r", "\n").split("\n"))
+                tt = t.replace("\r\n", "\n").replace("\r", "\n")       # exact text (line endings are the file layer's business)
                 if tt not in out:
-                    ctx.violation("a comment of the source is missing from the written output", c, out, t); break
+                    ctx.violation("a comment of the source is missing from the written output (exact text)", c, out, t); break
         # per-level order and level of line comments in the output: re-read the output
         try:
             with impl.scratch() as td2:
@@ -292,7 +292,7 @@ def run(ctx: Ctx) -> None:
         for _try in range(50):
             items = gen_items(rng, rng.choice([0, 1, 2, 3]), lstd=True)
             # inputs of the known-finding classes D28 / D32 stay out of the compared stream (a few pass, to confirm the class)
-            if not (first_block_nested(items) or _d32({"input": {"items": items}})) or rng.random() < 0.03:
+            if not (first_block_nested(items) or _d32({"input": {"items": items}}) or trailing_ws_comment(items)) or rng.random() < 0.03:
                 break
         cases.append(mk_case(rng, items))
     process(ctx, cases)
@@ -355,5 +355,31 @@ def _w27() -> bool:
     return "/* a */" not in NativeFormatter().to_string(s)
 
 
-KNOWN_CLASSES = {"first_block_comment_nested": _d28, "same_block_comment_two_levels": _d32, "adjacent_comments": _d27}
-WITNESSES = {"D28": _w28, "D32": _w32, "D27": _w27}
+def trailing_ws_comment(items) -> bool:
+    """known-finding class D42: a comment one of whose lines ends in white space"""
+    for it in items:
+        if it["i"] in ("lineC", "blockC"):
+            t = it["text"].replace("\r\n", "\n")
+            if re.search(r"[ \t\r\x0b\x0c]+(\n|$)", t):
+                return True
+        elif it["i"] == "sub" and trailing_ws_comment(it["items"]):
+            return True
+        elif it["i"] == "lstd" and any(trailing_ws_comment(d) for d in it["ds"]):
+            return True
+    return False
+
+
+def _d42(v: dict) -> bool:
+    return trailing_ws_comment(v["input"].get("items", []))
+
+
+def _w42() -> bool:
+    from dictIO import NativeFormatter, NativeParser, SDict
+    reset_globals()
+    s = NativeParser().parse_string("a 1; // note  \nb 2;\n", SDict())
+    return "// note  " in s.line_comments.values() and "// note  " not in NativeFormatter().to_string(s)
+
+
+KNOWN_CLASSES = {"first_block_comment_nested": _d28, "same_block_comment_two_levels": _d32, "adjacent_comments": _d27,
+                 "comment_with_trailing_white_space": _d42}
+WITNESSES = {"D28": _w28, "D32": _w32, "D27": _w27, "D42": _w42}
